@@ -116,6 +116,18 @@ pub fn run(prop: &str, a: &Args, rep: &mut Report) {
     }
     handle(rep, std::mem::take(&mut batch));
 
+    // ---- fusion bait: idiom pairs with loop back edges and forward jumps landing between them ----
+    let mut rng = Rng::derive(a.seed, a.shard, 7);
+    for k in 0..mix.structured / 2 {
+        let c = gen_fusion(&mut rng);
+        rep.count("fusion_programs");
+        batch.push(pre_run(c, format!("fusion#{}.{k}", a.shard), BUDGET));
+        if batch.len() >= batch_n {
+            handle(rep, std::mem::take(&mut batch));
+        }
+    }
+    handle(rep, std::mem::take(&mut batch));
+
     // ---- C04, second clause: programs with eBPF-to-eBPF calls must be refused by Cranelift ----
     #[cfg(feature = "std")]
     if prop == "C04" {
